@@ -265,6 +265,8 @@ impl C18 {
             PasswordVerdict::Reject(4),
             PasswordVerdict::Reject(5),
             PasswordVerdict::Reject(50),
+            PasswordVerdict::RejectAfterOutput(3),
+            PasswordVerdict::RejectAfterListOk(3),
             PasswordVerdict::Close,
             PasswordVerdict::Garbage,
             PasswordVerdict::CutInsideReply,
@@ -286,7 +288,7 @@ impl C18 {
         acc.inc("evaluations");
         acc.inc("password_sessions");
         acc.inc(&format!("password_verdict_{}", format!("{:?}", verdict).split('(').next().unwrap_or("").to_lowercase()));
-        acc.distinct("nontrivial", mix(&[0x18b, i % 8, hash_bytes(pw.as_bytes()), sc.world.reply_delay[0].as_millis() as u64, sc.world.write_cap.min(5) as u64]));
+        acc.distinct("nontrivial", mix(&[0x18b, i % 10, hash_bytes(pw.as_bytes()), sc.world.reply_delay[0].as_millis() as u64, sc.world.write_cap.min(5) as u64]));
         let a = Analysis::new(&out);
         let fail = |acc: &mut Acc, m: String| acc.violation(i, None, format!("{} [verdict {:?}, password {:?}]", m, verdict, pw), sess::detail(&sc, &out));
         if !out.panics.is_empty() || out.hung.iter().any(|h| h == "connect") {
@@ -296,7 +298,7 @@ impl C18 {
         // result kind
         let want = match verdict {
             PasswordVerdict::Accept => "ok",
-            PasswordVerdict::Reject(_) => "IncorrectPassword",
+            PasswordVerdict::Reject(_) | PasswordVerdict::RejectAfterOutput(_) | PasswordVerdict::RejectAfterListOk(_) => "IncorrectPassword",
             PasswordVerdict::Close | PasswordVerdict::CutInsideReply => "Protocol(Io(UnexpectedEof))",
             PasswordVerdict::Garbage => "Protocol(InvalidMessage)",
         };
@@ -367,7 +369,7 @@ impl Property for C18 {
     fn meta(&self, _cfg: &Cfg, _acc: &Acc) -> Meta {
         Meta {
             level: "exploration",
-            rule: "greetings: valid versions of any shape (digits, letters, blanks, CR, NUL, non-ASCII, nested 'OK MPD', 4-9 KiB), wrong prefixes differing at each position, empty version, invalid UTF-8, streams ending before the line end, random bytes; each under whole, byte-at-a-time, EVERY 2-way split (greetings <=64 bytes; sampled + buffer-edge points otherwise) and random k-way splits on the blocking and async connection, compared with the greeting reference (valid => version verbatim and the connection usable; complete malformed line => InvalidMessage; no line end => UnexpectedEof); the same through Client::connect / connect_with_password / connect_with_password_opt in the session engine (nothing may be written to a peer whose greeting was not accepted); password sessions: verdicts OK, ACK 3/4/5/50, close, garbage, reply cut inside, with delayed/chopped replies, wire latency, 4-byte writes, passwords with blanks/tabs/non-ASCII, a caller and a notification waiting: first line must be `password <arg>` tokenising to the password, idle only after the OK was completely delivered (C05 oracle), nothing further written after a rejection, result kinds IncorrectPassword / protocol errors; non-trivial = greeting split inside the line or password session; distinct by (greeting, segmentation, flavour) / (verdict, password, timing)".into(),
+            rule: "greetings: valid versions of any shape (digits, letters, blanks, CR, NUL, non-ASCII, nested 'OK MPD', 4-9 KiB), wrong prefixes differing at each position, empty version, invalid UTF-8, streams ending before the line end, random bytes; each under whole, byte-at-a-time, EVERY 2-way split (greetings <=64 bytes; sampled + buffer-edge points otherwise) and random k-way splits on the blocking and async connection, compared with the greeting reference (valid => version verbatim and the connection usable; complete malformed line => InvalidMessage; no line end => UnexpectedEof); the same through Client::connect / connect_with_password / connect_with_password_opt in the session engine (nothing may be written to a peer whose greeting was not accepted); password sessions: verdicts OK, ACK 3/4/5/50, ACK after printed output, ACK after a list_OK frame, close, garbage, reply cut inside, with delayed/chopped replies, wire latency, 4-byte writes, passwords with blanks/tabs/non-ASCII, a caller and a notification waiting: first line must be `password <arg>` tokenising to the password, idle only after the OK was completely delivered (C05 oracle), nothing further written after a rejection, result kinds IncorrectPassword / protocol errors; non-trivial = greeting split inside the line or password session; distinct by (greeting, segmentation, flavour) / (verdict, password, timing)".into(),
             nontrivial_set: "nontrivial",
             assumptions: vec!["greeting grammar from the protocol document: `OK MPD ` + >=1 non-LF bytes that are valid UTF-8 + LF".into(), "a stream that ends without LF after bytes that can no longer become a greeting may be reported as InvalidMessage or UnexpectedEof".into()],
             exhaustive: None,
